@@ -469,6 +469,9 @@ func checkC03(e *Env) {
 		}
 	})
 
+	// the concurrent flavour of this monitor (C12 is the full treatment)
+	concCalls := e.concurrentSmoke(drv, "C03", e.smokePool("C03", "chk"), e.pick(2, 12), e.pick(300, 1500))
+
 	// accept-set sizes per (language, word count)
 	sizes := newCounter()
 	badGroups := 0
@@ -492,6 +495,7 @@ func checkC03(e *Env) {
 	e.WriteEvidence("exploration", map[string]any{
 		"evaluations":                        stats.Ops,
 		"distinct_nontrivial":                refRejected.Len(),
+		"calls_repeated_under_concurrency":   concCalls,
 		"rule":                               "cases are strings built from reference-valid sentences: all 2048 final words for fixed prefixes (random, zero-leading, all-ones, all-zero), all 2047 substitutions at every position, transpositions, word-count changes 0..30, sentences and words of the other nine lists, case/affix/white-space damage, checksum-bit flips and seeded byte fuzz incl. invalid UTF-8; each is sent to CheckMnemonic and IsMnemonicValid; further, histories in one process (a valid sentence accepted, then the same string under other languages, in other spellings, with one word changed or appended); non-trivial = the independent reference validator (CPython NFKD, split on white space, golden lists, SHA-256) rejects the string, so acceptance would be a violation; distinct by (string, language)",
 		"samples":                            smp.List(),
 		"validations_by_class":               classes.Map(),
